@@ -66,7 +66,8 @@ type C12Input struct {
 
 type c12Obs struct {
 	Raced   bool     `json:"raced"`
-	Field   int      `json:"field"` // 999 = not attributed
+	Field   int      `json:"field"`  // 999 = the two source lines do not name one field
+	Fields  []int    `json:"fields"` // candidates: [Field], or the fields named in the enclosing functions
 	M1      string   `json:"m1"`
 	M2      string   `json:"m2"`
 	At1     string   `json:"at1,omitempty"`
@@ -856,6 +857,13 @@ func (t *c12Table) attribute(frames []c12Frame, write bool) (fields map[int]bool
 			continue
 		}
 		depth++
+		if _, _, exact := c12FuncBounds(f); !exact {
+			// the source moved since the build: no line-level attribution
+			if at == "" {
+				at = fmt.Sprintf("%s:%d (stale)", filepath.Base(f.File), f.Line)
+			}
+			return map[int]bool{}, at, false
+		}
 		src := c12Line(f.File, f.Line)
 		if at == "" {
 			at = fmt.Sprintf("%s:%d", filepath.Base(f.File), f.Line)
@@ -881,6 +889,83 @@ func (t *c12Table) attribute(frames []c12Frame, write bool) (fields map[int]bool
 		}
 	}
 	return fields, at, false
+}
+
+var c12ReFuncSuffix = regexp.MustCompile(`(\.func\d+|\.\d+|\[[^\]]*\]|\(\))+$`)
+
+// c12FuncBounds returns the source range of the frame's function. The report's
+// line numbers are those of the compiled binary; if the file changed since
+// (exact=false) the function is looked up by name instead.
+func c12FuncBounds(f c12Frame) (lo, hi int, exact bool) {
+	short := c12ReFuncSuffix.ReplaceAllString(f.Fn, "")
+	if k := strings.LastIndex(short, "."); k >= 0 {
+		short = short[k+1:]
+	}
+	hdr := regexp.MustCompile(`^func (\([^)]*\) )?` + regexp.QuoteMeta(short) + `\b`)
+	end := func(from int) int {
+		h := from
+		for n := 0; n < 600 && c12Line(f.File, h) != "}"; n++ {
+			h++
+		}
+		return h
+	}
+	lo = f.Line
+	for lo > 1 && !strings.HasPrefix(c12Line(f.File, lo), "func ") {
+		lo--
+	}
+	if hdr.MatchString(c12Line(f.File, lo)) && end(lo) >= f.Line {
+		return lo, end(lo), true
+	}
+	for l := 1; l < 20000; l++ {
+		src := c12Line(f.File, l)
+		if src == "" && l > 100 && c12Line(f.File, l+1) == "" && c12Line(f.File, l+2) == "" &&
+			c12Line(f.File, l+50) == "" {
+			break
+		}
+		if hdr.MatchString(src) {
+			return l, end(l), false
+		}
+	}
+	return 0, 0, false
+}
+
+// fields named anywhere in the function enclosing the innermost repo frame
+func (t *c12Table) funcFields(frames []c12Frame) map[int]bool {
+	fields := map[int]bool{}
+	for _, f := range frames {
+		if strings.HasPrefix(f.Fn, "main.") {
+			return fields
+		}
+		pkg := ""
+		switch {
+		case strings.Contains(f.File, "/pkg/machine/"):
+			pkg = "machine"
+		case strings.Contains(f.File, "/pkg/rpc/"):
+			pkg = "rpc"
+		default:
+			continue
+		}
+		lo, hi, _ := c12FuncBounds(f)
+		if lo == 0 {
+			return fields
+		}
+		var body strings.Builder
+		for l := lo; l <= hi; l++ {
+			body.WriteString(c12Line(f.File, l))
+			body.WriteByte('\n')
+		}
+		for ident, id := range t.Idents[pkg] {
+			pat := `\.` + ident + `\b`
+			if strings.Contains(ident, ".") {
+				pat = `\b` + regexp.QuoteMeta(ident) + `\b`
+			}
+			if regexp.MustCompile(pat).MatchString(body.String()) {
+				fields[id] = true
+			}
+		}
+		return fields
+	}
+	return fields
 }
 
 func c12Blame(frames []c12Frame) string {
@@ -956,12 +1041,44 @@ func c12Run(c *Ctx, t *c12Table, in *C12Input) *c12Obs {
 		}
 		obs.Harness = nHarness == len(blocks) && nHarness > 0
 		obs.Field = c12PickField(fs)
+		if obs.Field != c12NoField {
+			obs.Fields = []int{obs.Field}
+		} else {
+			// fall back to the fields named in the enclosing functions
+			var ffs []map[int]bool
+			for _, b := range blocks {
+				if m := t.funcFields(b.frames); len(m) > 0 {
+					ffs = append(ffs, m)
+				}
+			}
+			cand := map[int]bool{}
+			if len(ffs) == 2 {
+				for f := range ffs[0] {
+					if ffs[1][f] {
+						cand[f] = true
+					}
+				}
+			} else if len(ffs) == 1 {
+				cand = ffs[0]
+			}
+			for f := range cand {
+				obs.Fields = append(obs.Fields, f)
+			}
+			sort.Ints(obs.Fields)
+		}
 		// the Subscriptions of a NetworkMachine live in pkg/machine: move the
 		// field to the NetworkMachine's own instance
-		if in.Kind == "netmach" && obs.Field >= 12 && obs.Field <= 18 {
-			obs.Field += 50
-		} else if in.Kind == "netmach" && obs.Field == 1 {
-			obs.Field = 51 // sm.clock is the NetworkMachine's machClock map
+		if in.Kind == "netmach" {
+			for i, f := range obs.Fields {
+				if f >= 12 && f <= 18 {
+					obs.Fields[i] = f + 50
+				} else if f == 1 {
+					obs.Fields[i] = 51 // sm.clock is the NetworkMachine's machClock map
+				}
+			}
+			if len(obs.Fields) == 1 {
+				obs.Field = obs.Fields[0]
+			}
 		}
 	case strings.Contains(se, "fatal error: concurrent map"):
 		// the runtime's own detector: a race on a map
@@ -1037,9 +1154,9 @@ func c12Coq(in *C12Input, obs *c12Obs) string {
 		ths[i] = c12CoqStrs(th)
 	}
 	return fmt.Sprintf("{| k_warm := %s; k_threads := [%s]; k_missing := %s; o_raced := %s; "+
-		"o_field := %d; o_m1 := %s; o_m2 := %s |}",
+		"o_fields := %s; o_m1 := %s; o_m2 := %s |}",
 		coqBool(in.Warm), strings.Join(ths, "; "), c12CoqStrs(obs.Missing), coqBool(obs.Raced),
-		obs.Field, strconv.Quote(obs.M1), strconv.Quote(obs.M2))
+		coqNatList(obs.Fields), strconv.Quote(obs.M1), strconv.Quote(obs.M2))
 }
 
 // ---------------------------------------------------------------- runner
@@ -1287,7 +1404,7 @@ func runC12(c *Ctx) error {
 		switch {
 		case obs.Raced:
 			out.Count("outcome", "raced")
-			raceSites[fmt.Sprintf("%s || %s on field %d (%s / %s)", obs.M1, obs.M2, obs.Field, obs.At1, obs.At2)]++
+			raceSites[fmt.Sprintf("%s || %s on field(s) %v (%s / %s)", obs.M1, obs.M2, obs.Fields, obs.At1, obs.At2)]++
 		case obs.Hung:
 			out.Count("outcome", "hung")
 			hung++
